@@ -52,6 +52,7 @@ extern "C" int LLVMFuzzerTestOneInput(const uint8_t *data, size_t size) {
         if (s.cfg.auto_destroy) g_stats.cls("auto_destroy"); if (txc) g_stats.cls("transaction_completed"); if (special_rc) g_stats.cls("non_DATA_return_code");
         if (r.txs.size() >= 2) g_stats.cls("two_or_more_transactions");
         if (g_stats.samples.size() < g_stats.max_samples && (g_stats.evaluations % 5003) == 17) g_stats.sample(s.text());
+        if ((g_stats.evaluations % 50000) == 0) g_stats.write(); // a worker stopped by the wall-clock budget keeps what it counted so far
     }
     if (g_monitor != "C01") {
         for (auto &v : r.violations) {
